@@ -547,7 +547,10 @@ func ExtendVoucher[T protocol.PublicKeyOrChain](v *Voucher, owner crypto.Signer,
 	if err != nil {
 		return nil, err
 	}
-	xv.Entries = append(xv.Entries, *entry)
+	// The clone shares the entries of v: limit the capacity so that append copies
+	// them instead of writing into spare capacity that another voucher extended
+	// from v may also be using.
+	xv.Entries = append(xv.Entries[:len(xv.Entries):len(xv.Entries)], *entry)
 	return xv, nil
 }
 
